@@ -529,9 +529,11 @@ void copy_hfe(bool hfe3, const byte* begin, const byte* end,
   int got_bits = 0;
   byte out = 0;
   byte this_op = 0;
+  // skipbits is the number of leading bits of the next data byte
+  // which carry no data (set by the SKIPBITS opcode).
+  int skipbits = 0;
   while (begin != end)
     {
-      int skipbits = 0;
       byte in = *begin++;
       if (this_op)
 	{
@@ -559,19 +561,23 @@ void copy_hfe(bool hfe3, const byte* begin, const byte* end,
 
 	    case SKIPBITS_OPCODE:
 	      {
-		skipbits = in;
+		// This byte is the argument (a bit count).  The bits
+		// are skipped at the start of the byte which follows
+		// it; that byte is always data.
 		this_op = 0;
+		if (in >= 8)
+		  {
+		    std::cerr << "HFEv3: unexpected SKIPBITS argument "
+			      << static_cast<unsigned int>(in) << "\n";
+		    continue;
+		  }
+		skipbits = in;
 		if (DFS::verbose)
 		  {
 		  std::cerr << "HFEv3: skipbits: " << skipbits << " bits to skip\n";
 		  }
-		if (in >= 8)
-		  {
-		    std::cerr << "HFEv3: unexpected SKIPBITS argument " << in << "\n";
-		    continue;
-		  }
 	      }
-	      break;
+	      continue;
 
 	    case RAND_OPCODE:
 	      /* The purpose of RAND_OPCODE is, I think, so that the
@@ -615,7 +621,7 @@ void copy_hfe(bool hfe3, const byte* begin, const byte* end,
 	    }
 	  this_op = 0;
 	}
-      else if (hfe3 && is_hfe3_opcode(in))
+      else if (hfe3 && skipbits == 0 && is_hfe3_opcode(in))
 	{
 	  if (DFS::verbose)
 	    {
@@ -678,12 +684,14 @@ void copy_hfe(bool hfe3, const byte* begin, const byte* end,
 	     data, we worry about that separately. */
 	  out = static_cast<byte>((out >> 1 ) | bit);
 	  ++got_bits;
-	}
-      if (8 == got_bits)
-	{
-	  *dest++ = out;
-	  out = 0;
-	  got_bits = 0;
+	  if (8 == got_bits)
+	    {
+	      // Bytes of output need not be aligned with bytes of
+	      // input (because of SKIPBITS).
+	      *dest++ = out;
+	      out = 0;
+	      got_bits = 0;
+	    }
 	}
     }
   if (this_op)
@@ -753,45 +761,27 @@ HfeFile::read_all_sectors(const std::vector<PicTrack>& lut,
 
       // The data is in side_block_size chunks (side 0 then side 1,
       // etc.) but we only want the data for one of the sides.
-      std::vector<byte> track_stream;
-      track_stream.reserve(track_len_in_bytes / 2);
+      // Gather all the blocks for this side before interpreting
+      // them, because neither HFEv3 opcodes (and their arguments) nor
+      // the bytes of the decoded stream are aligned with the blocks.
+      std::vector<byte> side_data;
+      side_data.reserve(track_len_in_bytes / 2);
       auto begin_offset = side_block_size * side;
       while (begin_offset < track_bytes_read)
 	{
 	  const auto end_offset = std::min(begin_offset + side_block_size,
 					   track_bytes_read);
 	  assert(end_offset <= raw_data.size());
-	  if (DFS::verbose)
-	    {
-#if ULTRA_VERBOSE
-	      std::cerr << "Track " << track << ": copying "
-			<< (end_offset - begin_offset) << " bytes starting at "
-			<< "offset " << begin_offset << " to position "
-			<< track_stream.size() << " in the track stream\n";
-	      std::cerr << "Input:\n";
-	      DFS::hexdump_bytes(std::cerr, begin_offset, 16,
-				 raw_data.data() + begin_offset,
-				 raw_data.data() + end_offset);
-#endif
-	    }
-#if ULTRA_VERBOSE
-	  auto oldsize = track_stream.size();
-#endif
-	  copy_hfe(3 == hfe_version_,
-		   raw_data.data() + begin_offset,
-		   raw_data.data() + end_offset,
-		   std::back_inserter(track_stream));
-	  if (DFS::verbose)
-	    {
-#if ULTRA_VERBOSE
-	      std::cerr << "Output:\n";
-	      DFS::hexdump_bytes(std::cerr, oldsize, 16,
-				 track_stream.data() + oldsize,
-				 track_stream.data() + track_stream.size());
-#endif
-	    }
+	  side_data.insert(side_data.end(),
+			   raw_data.begin() + begin_offset,
+			   raw_data.begin() + end_offset);
 	  begin_offset += raw_data_block_size;
 	}
+      std::vector<byte> track_stream;
+      track_stream.reserve(side_data.size());
+      copy_hfe(3 == hfe_version_,
+	       side_data.data(), side_data.data() + side_data.size(),
+	       std::back_inserter(track_stream));
 #if ULTRA_VERBOSE
       if (DFS::verbose)
 	{
